@@ -233,6 +233,16 @@ func (x *c16) opInbound(c *sim.RawClient, permitted bool) {
 	ip := net.IPv4(10, 2, 0, byte(1+x.rng.Intn(3))).To4()
 	if !permitted {
 		ip = net.IPv4(10, 2, 9, byte(1+x.rng.Intn(200))).To4()
+		// preferably a host this allocation has dealt with (e.g. connected to) but holds no
+		// permission for: nothing but CreatePermission installs one
+		for _, k := range x.rng.Perm(3) {
+			cand := net.IPv4(10, 2, 0, byte(1+k)).To4()
+			if a.PermState(cand) == sim.Dead && x.rng.Intn(3) != 0 {
+				ip = cand
+
+				break
+			}
+		}
 	} else if a.PermState(ip) != sim.Live {
 		x.m.CreatePermission(c, &net.UDPAddr{IP: ip, Port: 1})
 	}
